@@ -12,6 +12,7 @@ import (
 	"fmt"
 	"io"
 	"math/rand"
+	"sync/atomic"
 	"time"
 
 	"rare/pkg/extractor"
@@ -22,7 +23,7 @@ import (
 )
 
 func main() {
-	vh.Main(vh.Commands{"replay": c04Replay, "trace": c04Trace, "breplay": c04BatchReplay})
+	vh.Main(vh.Commands{"replay": c04Replay, "trace": c04Trace, "breplay": c04BatchReplay, "stalltrace": c04StallTrace})
 }
 
 type M = vh.M
@@ -44,9 +45,24 @@ type scriptedReader struct {
 	ended    string // "" | "eof" | "fail"
 	afterEnd int
 	log      func(data []byte, e string)
+
+	stallMul int // > 1: every stall entry (no data, nil) of the script is served that many times in a row
+	rep      int
+	calls    int64       // Read calls so far
+	empty    int64       // ... of which with len(p) == 0 (the scanner asked for nothing)
+	abort    atomic.Bool // set by the watchdog: the next Read panics (ends a scanner that never returns)
 }
 
+type abortedScan struct{}
+
 func (s *scriptedReader) Read(p []byte) (int, error) {
+	if s.abort.Load() {
+		panic(abortedScan{})
+	}
+	s.calls++
+	if len(p) == 0 {
+		s.empty++
+	}
 	if s.ended != "" {
 		s.afterEnd++
 		if s.ended == "eof" {
@@ -62,6 +78,13 @@ func (s *scriptedReader) Read(p []byte) (int, error) {
 		return 0, io.EOF
 	}
 	cur := &s.script[s.pos]
+	if len(cur.D) == 0 && cur.E == "nil" && len(p) > 0 && s.rep+1 < s.stallMul {
+		s.rep++ // a stall, served again
+		if s.log != nil {
+			s.log(p[:0], "nil")
+		}
+		return 0, nil
+	}
 	n := len(cur.D) - s.off
 	if n > len(p) {
 		n = len(p)
@@ -75,6 +98,7 @@ func (s *scriptedReader) Read(p []byte) (int, error) {
 		e = cur.E
 		s.pos++
 		s.off = 0
+		s.rep = 0
 	}
 	if s.log != nil {
 		s.log(p[:n], e)
@@ -107,6 +131,10 @@ type scanOutcome struct {
 	afterEnd int
 	extra    int // Scan() calls that returned true after Scan() had returned false
 	hang     bool
+	calls    int64 // Read calls made (at the moment the watchdog gave up, for a hang)
+	empty    int64 // Read calls with an empty slice
+	panicked string
+	leaked   bool // a hung scan that could not be ended (it does not call Read): its goroutine keeps spinning
 }
 
 type scanOpts struct {
@@ -121,10 +149,24 @@ type lineReader interface {
 // runScanner drives one real scanner over the scripted reader to the end, then calls Scan() twice more
 // (the stream has ended: nothing may be read, returned or reported any more).
 func runScanner(variant string, rd *scriptedReader, size int, onTok func([]byte), onErr func(), onEnd func(), opt scanOpts) scanOutcome {
+	return runScannerDL(variant, rd, size, onTok, onErr, onEnd, opt, 20*time.Second)
+}
+
+// runScannerDL: the same under a watchdog. A scanner that has not returned after the deadline is reported as
+// hang; the reader is then told to panic at its next call, which ends a scanner spinning around Read (a scanner
+// that spins without reading is left behind).
+func runScannerDL(variant string, rd *scriptedReader, size int, onTok func([]byte), onErr func(), onEnd func(), opt scanOpts, deadline time.Duration) scanOutcome {
 	var out scanOutcome
 	done := make(chan struct{})
 	go func() {
 		defer close(done)
+		defer func() {
+			if r := recover(); r != nil {
+				if _, ok := r.(abortedScan); !ok {
+					out.panicked = fmt.Sprint(r)
+				}
+			}
+		}()
 		sc := newScanner(variant, rd, size)
 		if !opt.noErrCb {
 			sc.OnError(func(error) {
@@ -161,13 +203,65 @@ func runScanner(variant string, rd *scriptedReader, size int, onTok func([]byte)
 			}
 		}
 	}()
+	tm := time.NewTimer(deadline)
+	defer tm.Stop()
 	select {
 	case <-done:
-	case <-time.After(20 * time.Second):
-		out.hang = true
+	case <-tm.C:
+		rd.abort.Store(true)
+		leaked := false
+		select {
+		case <-done:
+		case <-time.After(2 * time.Second):
+			leaked = true // spinning without calling Read: cannot be ended from outside
+		}
+		return scanOutcome{hang: true, calls: rd.calls, empty: rd.empty, leaked: leaked}
 	}
 	out.afterEnd = rd.afterEnd
+	out.calls, out.empty = rd.calls, rd.empty
 	return out
+}
+
+// hangPolicy: a script whose scan does not return within `first` is run again, alone, with the long deadline
+// `confirm`; only then it counts as a hang. After `cap` confirmed hangs of one class (scanner variant, buffer
+// size) the remaining scripts of that class are skipped and counted - each of them would cost both deadlines.
+type hangPolicy struct {
+	first, confirm time.Duration
+	cap            int
+	confirmed      map[string]int
+	skipped        map[string]int
+	falseAlarms    int
+}
+
+func newHangPolicy() *hangPolicy {
+	return &hangPolicy{first: 5 * time.Second, confirm: 15 * time.Second, cap: 2, confirmed: map[string]int{}, skipped: map[string]int{}}
+}
+
+func hangClass(variant string, size int) string { return fmt.Sprintf("%s/buf=%d", variant, size) }
+
+// run returns (outcome, ran). mk must return a fresh reader for the same script each time.
+func (h *hangPolicy) run(variant string, size int, opt scanOpts, mk func() (*scriptedReader, func([]byte), func(), func())) (scanOutcome, bool) {
+	cl := hangClass(variant, size)
+	if h.confirmed[cl] >= h.cap {
+		h.skipped[cl]++
+		return scanOutcome{}, false
+	}
+	rd, onTok, onErr, onEnd := mk()
+	o := runScannerDL(variant, rd, size, onTok, onErr, onEnd, opt, h.first)
+	if !o.hang {
+		return o, true
+	}
+	rd, onTok, onErr, onEnd = mk()
+	o = runScannerDL(variant, rd, size, onTok, onErr, onEnd, opt, h.confirm)
+	if o.hang {
+		h.confirmed[cl]++
+		if o.leaked {
+			h.confirmed[cl] = h.cap // every further script of the class would leave two more spinning goroutines behind
+		}
+	} else {
+		h.falseAlarms++
+	}
+	return o, true
 }
 
 type c04Vector struct {
@@ -181,6 +275,7 @@ func c04Replay(args []string) error {
 	fs := flag.NewFlagSet("c04-replay", flag.ExitOnError)
 	in := fs.String("in", "", "vectors ndjson")
 	out := fs.String("out", "", "result json")
+	allStalls := fs.Bool("allstalls", false, "stretch the stalls of every vector that has some (default: every second one)")
 	fs.Parse(args)
 	type mismatch struct {
 		Vector  json.RawMessage `json:"vector"`
@@ -190,31 +285,41 @@ func c04Replay(args []string) error {
 	}
 	var mism []mismatch
 	n, distinct := 0, map[string]bool{}
+	hp := newHangPolicy()
+	idx, stallRuns, maxStalls := 0, 0, 0
 	var samples []json.RawMessage
 	err := vh.ReadNd(*in, func(raw json.RawMessage) error {
 		var v c04Vector
 		if err := json.Unmarshal(raw, &v); err != nil {
 			return err
 		}
-		for _, vr := range []struct {
-			name, variant string
-			opt           scanOpts
-		}{{"imm", "imm", scanOpts{}}, {"buf", "buf", scanOpts{}},
-			{"imm-readline", "imm", scanOpts{readLine: true}}, {"buf-readline", "buf", scanOpts{readLine: true}},
-			{"imm-nocallback", "imm", scanOpts{noErrCb: true}}, {"buf-nocallback", "buf", scanOpts{noErrCb: true}}} {
-			if vr.opt.noErrCb && v.Errs == 0 {
-				continue
+		idx++
+		// one real execution of the script; mul > 1: every stall of the script is served mul times in a row.
+		// By the law "a stall changes nothing" (ScannerStall.tla: StallNoop, StallReturns, StallLaw; Scanner.tla: a
+		// stall is a stuttering step) the expected tokens and error count are those TLC gave for the script.
+		one := func(variant, base string, opt scanOpts, mul int) {
+			size := v.Buf
+			if base == "buf" && size < 2 {
+				size = 2
 			}
-			variant := vr.name
-			rd := &scriptedReader{script: append([]scriptedRead{}, v.Reads...)}
-			o := runScanner(vr.variant, rd, v.Buf, nil, nil, nil, vr.opt)
+			o, ran := hp.run(base, size, opt, func() (*scriptedReader, func([]byte), func(), func()) {
+				return &scriptedReader{script: append([]scriptedRead{}, v.Reads...), stallMul: mul}, nil, nil, nil
+			})
+			if !ran {
+				return
+			}
 			n++
 			add := func(kind string, got interface{}) {
 				mism = append(mism, mismatch{raw, variant, kind, got})
 			}
 			if o.hang {
-				add("hang", nil)
-				continue
+				add("hang", M{"stall_mul": mul, "read_calls": o.calls, "read_calls_with_empty_slice": o.empty,
+					"deadlines_s": []float64{hp.first.Seconds(), hp.confirm.Seconds()}})
+				return
+			}
+			if o.panicked != "" {
+				add("panic", M{"stall_mul": mul, "panic": o.panicked})
+				return
 			}
 			gotHeld := make([][]int, len(o.held))
 			for i := range o.held {
@@ -229,7 +334,11 @@ func c04Replay(args []string) error {
 				for i := range o.copies {
 					cp[i] = B(o.copies[i])
 				}
-				add("tokens", cp)
+				if mul > 1 {
+					add("tokens", M{"stall_mul": mul, "toks": cp})
+				} else {
+					add("tokens", cp)
+				}
 			} else {
 				for i := range v.Toks {
 					if !vh.EqInts(gotHeld[i], v.Toks[i]) {
@@ -238,14 +347,57 @@ func c04Replay(args []string) error {
 					}
 				}
 			}
-			if o.errs != v.Errs && !vr.opt.noErrCb {
-				add("errcount", o.errs)
+			if o.errs != v.Errs && !opt.noErrCb {
+				if mul > 1 {
+					add("errcount", M{"stall_mul": mul, "errs": o.errs})
+				} else {
+					add("errcount", o.errs)
+				}
 			}
 			if o.extra != 0 {
 				add("scan-after-end", o.extra)
 			}
 			if o.afterEnd != 0 {
 				add("read-after-end", o.afterEnd)
+			}
+		}
+		for _, vr := range []struct {
+			name, variant string
+			opt           scanOpts
+		}{{"imm", "imm", scanOpts{}}, {"buf", "buf", scanOpts{}},
+			{"imm-readline", "imm", scanOpts{readLine: true}}, {"buf-readline", "buf", scanOpts{readLine: true}},
+			{"imm-nocallback", "imm", scanOpts{noErrCb: true}}, {"buf-nocallback", "buf", scanOpts{noErrCb: true}}} {
+			if vr.opt.noErrCb && v.Errs == 0 {
+				continue
+			}
+			one(vr.name, vr.variant, vr.opt, 1)
+		}
+		// long stall histories: the same script with its k stalls stretched to >= 150, 1 100 or 12 000 in total
+		k := 0
+		for _, r := range v.Reads {
+			if len(r.D) == 0 && r.E == "nil" {
+				k++
+			}
+		}
+		if k > 0 && (*allStalls || idx%2 == 0) {
+			total := 150
+			switch {
+			case idx%32 == 0:
+				total = 12000
+			case idx%32 <= 6:
+				total = 1100
+			}
+			mul := (total + k - 1) / k
+			if mul*k > maxStalls {
+				maxStalls = mul * k
+			}
+			one("imm-stalls", "imm", scanOpts{}, mul)
+			one("buf-stalls", "buf", scanOpts{}, mul)
+			stallRuns += 2
+			if *allStalls || idx%8 == 0 {
+				one("imm-readline-stalls", "imm", scanOpts{readLine: true}, mul)
+				one("buf-readline-stalls", "buf", scanOpts{readLine: true}, mul)
+				stallRuns += 2
 			}
 		}
 		if len(v.Toks) > 1 {
@@ -259,7 +411,9 @@ func c04Replay(args []string) error {
 	if err != nil {
 		return err
 	}
-	vh.WriteJSON(*out, M{"runs": n, "distinct_nontrivial": len(distinct), "mismatches": mism, "samples": samples})
+	vh.WriteJSON(*out, M{"runs": n, "distinct_nontrivial": len(distinct), "mismatches": mism, "samples": samples,
+		"stall_runs": stallRuns, "max_stalls_in_a_script": maxStalls,
+		"hangs_confirmed": hp.confirmed, "skipped_after_hangs": hp.skipped, "slow_not_hung": hp.falseAlarms})
 	return nil
 }
 
@@ -332,6 +486,75 @@ func randScript(r *rand.Rand, stream []byte) []scriptedRead {
 	return sc
 }
 
+// compactScript: the script with every run of stalls written as {"stalls": n} (for replay files)
+func compactScript(script []scriptedRead) []interface{} {
+	var out []interface{}
+	run := 0
+	for _, r := range script {
+		if len(r.D) == 0 && r.E == "nil" {
+			run++
+			continue
+		}
+		if run > 0 {
+			out = append(out, M{"stalls": run})
+			run = 0
+		}
+		out = append(out, r)
+	}
+	if run > 0 {
+		out = append(out, M{"stalls": run})
+	}
+	return out
+}
+
+// recordScan runs one real scanner over the script under the watchdog and writes the trace of the run that
+// counted: reset, read / stall (a run of n reads that returned (0, nil)) in call order interleaved with tok / err /
+// end. A confirmed hang is written as reset + the reads made + `hang` (an event the specification cannot explain);
+// false if the script was skipped (its class already has confirmed hangs).
+func recordScan(w *vh.NdWriter, hp *hangPolicy, tid int, variant string, size int, script []scriptedRead, stallMul int, opt scanOpts) (scanOutcome, bool) {
+	var evs []M
+	stallRun := 0
+	flush := func() {
+		if stallRun > 0 {
+			evs = append(evs, M{"event": "stall", "n": stallRun})
+			stallRun = 0
+		}
+	}
+	o, ran := hp.run(variant, size, opt, func() (*scriptedReader, func([]byte), func(), func()) {
+		evs, stallRun = nil, 0
+		rd := &scriptedReader{script: script, stallMul: stallMul, log: func(d []byte, e string) {
+			if len(d) == 0 && e == "nil" {
+				stallRun++
+				return
+			}
+			flush()
+			evs = append(evs, M{"event": "read", "data": B(d), "err": e})
+		}}
+		return rd, func(t []byte) { flush(); evs = append(evs, M{"event": "tok", "data": B(t)}) },
+			func() { flush(); evs = append(evs, M{"event": "err"}) },
+			func() { flush(); evs = append(evs, M{"event": "end"}) }
+	})
+	if !ran {
+		return o, false
+	}
+	w.Write(M{"event": "reset", "t": tid, "variant": variant, "size": size, "bsize": 0})
+	if o.hang {
+		// the goroutine may still be appending: the events of a hung run are not written, only the verdict
+		w.Write(M{"event": "hang", "read_calls": o.calls, "read_calls_with_empty_slice": o.empty, "script": compactScript(script), "stall_mul": stallMul,
+			"deadlines_s": []float64{hp.first.Seconds(), hp.confirm.Seconds()}})
+		return o, false
+	}
+	if o.panicked != "" {
+		w.Write(M{"event": "panic", "panic": o.panicked, "script": compactScript(script)})
+		return o, false
+	}
+	flush()
+	for _, e := range evs {
+		w.Write(e)
+	}
+	return o, true
+}
+
 func c04Trace(args []string) error {
 	fs := flag.NewFlagSet("c04-trace", flag.ExitOnError)
 	out := fs.String("out", "", "trace ndjson")
@@ -349,6 +572,7 @@ func c04Trace(args []string) error {
 	defer w.Close()
 	r := vh.NewRand(4)
 	tid := 0
+	hp := newHangPolicy()
 	for i := 0; i < *n; i++ {
 		tid++
 		variant := []string{"imm", "buf"}[r.Intn(2)]
@@ -363,16 +587,8 @@ func c04Trace(args []string) error {
 		stream := randStream(r, ln)
 		// cut the stream at a random position for failure injection (bytes before the error count)
 		script := randScript(r, stream)
-		w.Write(M{"event": "reset", "t": tid, "variant": variant, "size": size, "bsize": 0})
-		rd := &scriptedReader{script: script, log: func(d []byte, e string) {
-			w.Write(M{"event": "read", "data": B(d), "err": e})
-		}}
-		o := runScanner(variant, rd, size,
-			func(t []byte) { w.Write(M{"event": "tok", "data": B(t)}) },
-			func() { w.Write(M{"event": "err"}) },
-			func() { w.Write(M{"event": "end"}) }, scanOpts{readLine: r.Intn(4) == 0})
-		if o.hang {
-			w.Write(M{"event": "hang"})
+		o, ok := recordScan(w, hp, tid, variant, size, script, 1, scanOpts{readLine: r.Intn(4) == 0})
+		if !ok {
 			continue
 		}
 		if o.afterEnd > 0 {
